@@ -220,6 +220,7 @@ fn parse_cmd(line: &str, cur: &Option<Pos>) -> Cmd {
         Some("stop") => Cmd::Stop,
         Some("quit") => Cmd::Quit,
         Some(".state") => Cmd::State,
+        Some(".status") => Cmd::Other,
         Some("go") => {
             let mut depth = None;
             let mut movetime_ms = None;
@@ -1004,6 +1005,32 @@ pub fn generate(ctx: &Ctx, prop: &str, rng: &mut Rng64, thorough: bool, index: u
                     let (l, _) = if allow_terminal && rng.chance(250) {
                         let p = if rng.chance(500) { Pos::from_fen(rng.pick(corpus::TERMINAL)).unwrap() } else { let m = rng.chance(500); corpus::tb_terminal(rng, m) };
                         (format!("position fen {}", p.fen()), p)
+                    } else if rng.chance(120) {
+                        // a move list that exercises one rule of the position update, possibly
+                        // cut short or continued by a few random plies; always looked at with .state
+                        let (fen, line) = *rng.pick(corpus::SPECIAL_LINES);
+                        let toks: Vec<&str> = line.split_ascii_whitespace().collect();
+                        let cut = toks.len() - if rng.chance(250) { rng.below(toks.len() as u64) as usize } else { 0 };
+                        let mut p = Pos::from_fen(fen).unwrap();
+                        let mut ms: Vec<String> = Vec::new();
+                        for t in &toks[..cut] {
+                            let m = Mv::parse(t).unwrap();
+                            p = p.make(m);
+                            ms.push(t.to_string());
+                        }
+                        let extra = *rng.pick(&[0u32, 0, 1, 2, 3]);
+                        let (end, more) = corpus::random_play(rng, &p, extra);
+                        for m in &more {
+                            ms.push(m.uci());
+                        }
+                        let l = if ms.is_empty() { format!("position fen {}", fen) } else { format!("position fen {} moves {}", fen, ms.join(" ")) };
+                        if end.legal_moves().is_empty() {
+                            position_line(rng, true)
+                        } else {
+                            s.push(UStep::Line(l));
+                            s.push(UStep::Line(".state".to_string()));
+                            (format!("go depth {}", 1 + rng.below(3)), end)
+                        }
                     } else if let (Some(t), true) = (&theme, rng.chance(800)) {
                         themed_position_line(rng, t)
                     } else {
@@ -1042,6 +1069,7 @@ pub fn generate(ctx: &Ctx, prop: &str, rng: &mut Rng64, thorough: bool, index: u
                     heavy_running = false;
                 }
                 93..=95 => s.push(UStep::Line("uci".to_string())),
+                96..=97 => s.push(UStep::Line(".status".to_string())),
                 _ => s.push(UStep::Line(".state".to_string())),
             }
             let _ = pos_known;
